@@ -5,7 +5,7 @@
 // jobs.json = {"repo": "/repo/", "jobs": [ {"in": <abstract vector, echoed>, "spec": "ETH1",
 //
 //	"iface": "jsonrpc", "rule": 127, "policy": ["archive"],
-//	"items": [ {"url": "", "data": "...", "conn": "POST", "latest": 100, "both": false, "nopol": false} |
+//	"items": [ {"url": "", "data": "...", "conn": "POST", "latest": 100, "both": false, "nopol": false, "override": null|[..]} |
 //	           {"kind": "rule", "rl": -2, "re": 5, "latest": 100, "rule": 127} ]} ]}
 //
 // One NDJSON line per job: {"ev":"job","n":i,"in":...,"out":[result per item]}.
@@ -43,8 +43,10 @@ type item struct {
 	Conn   string `json:"conn"`
 	Latest uint64 `json:"latest"`
 	Both   bool   `json:"both"`
-	Reps   int    `json:"reps"`  // with "both": repeat the consumer+provider parse this many times (map-order nondeterminism)
-	NoPol  bool   `json:"nopol"` // parse with a parser on which no policy was set (no extension is ever attached)
+	// explicit extension choice of the consumer-side parse: absent/null = nil (parser decides), [] = empty, [..] = names
+	Override *[]string `json:"override"`
+	Reps     int       `json:"reps"`  // with "both": repeat the consumer+provider parse this many times (map-order nondeterminism)
+	NoPol    bool      `json:"nopol"` // parse with a parser on which no policy was set (no extension is ever attached)
 	// kind == "rule"
 	RL   int64  `json:"rl"`
 	RE   int64  `json:"re"`
@@ -82,7 +84,7 @@ type result struct {
 	Arch   bool     `json:"arch"`
 	Exts   []string `json:"exts"`
 	Batch  bool     `json:"batch"`
-	Ms     int64    `json:"ms"` // wall time of the guarded call, milliseconds
+	Ms     int64    `json:"ms"`       // wall time of the guarded call, milliseconds
 	Unstab bool     `json:"unstable"` // a repetition of the same consumer parse gave a different projection
 	Alt    string   `json:"alt"`      // ... its API name
 	HasPrv bool     `json:"hasprov"`
@@ -298,7 +300,11 @@ func main() {
 			}
 			consumer := func() result {
 				return guarded(wd, func() result {
-					return project(p.ParseMsg(it.URL, []byte(it.Data), it.Conn, nil, extensionslib.ExtensionInfo{LatestBlock: it.Latest}))
+					ei := extensionslib.ExtensionInfo{LatestBlock: it.Latest}
+					if it.Override != nil {
+						ei.ExtensionOverride = append([]string{}, (*it.Override)...)
+					}
+					return project(p.ParseMsg(it.URL, []byte(it.Data), it.Conn, nil, ei))
 				})
 			}
 			provider := func(c result) result {
